@@ -4,10 +4,15 @@ X == Var("X")
 A(p, args) == [p |-> p, a |-> args]
 Fact(p, args) == [h |-> A(p, args), b |-> <<>>, t |-> <<"none">>]
 Rule(hd, bd) == [h |-> hd, b |-> bd, t |-> <<"none">>]
+\* a fact / rule whose head carries the eternal annotation @[_]: it is written to the temporal store although no
+\* predicate is declared temporal
+FactE(p, args) == [h |-> A(p, args), b |-> <<>>, t |-> <<"none">>, ht |-> <<"eternal">>]
+RuleE(hd, bd) == [h |-> hd, b |-> bd, t |-> <<"none">>, ht |-> <<"eternal">>]
 L == [ id |-> "lib1",
        files |-> [ f1 |-> << Fact("base", <<Num(1)>>), Fact("base", <<Num(2)>>), Rule(A("p", <<X>>), <<<<"pos", A("base", <<X>>)>>>>) >>,
                    f2 |-> << Rule(A("q", <<X>>), <<<<"pos", A("p", <<X>>)>>, <<"neg", A("blocked", <<X>>)>>>>), Fact("blocked", <<Num(2)>>) >>,
-                   f3 |-> << Fact("r", <<Num(1)>>), Fact("r", <<Num(5)>>) >> ],
+                   f3 |-> << Fact("r", <<Num(1)>>), Fact("r", <<Num(5)>>) >>,
+                   f4 |-> << Fact("g", <<Num(1)>>), RuleE(A("always", <<X>>), <<<<"pos", A("g", <<X>>)>>>>) >> ],
        texts |-> [ d1 |-> [valid |-> TRUE,  clauses |-> << Rule(A("s", <<X>>), <<<<"pos", A("r", <<X>>)>>>>) >>],
                    d2 |-> [valid |-> TRUE,  clauses |-> << Fact("s", <<Num(7)>>) >>],
                    d3 |-> [valid |-> TRUE,  clauses |-> << Rule(A("t", <<X>>), <<<<"pos", A("base", <<X>>)>>, <<"neg", A("q", <<X>>)>>>>) >>],
@@ -19,8 +24,10 @@ L == [ id |-> "lib1",
                    \* d8 always (it brings its own fact), d9 only on top of file f1 (base(1) makes the divisor zero)
                    d8 |-> [valid |-> TRUE,  clauses |-> << Fact("z", <<Num(7)>>),
                                                            Rule(A("y", <<X>>), <<<<"pos", A("z", <<Var("Y")>>)>>, <<"eq", X, Ap("fn:div", <<Var("Y"), Num(0)>>)>>>>) >>],
+                   d10 |-> [valid |-> TRUE, clauses |-> << FactE("seen", <<Nm("/a")>>) >>],
+                   d11 |-> [valid |-> TRUE, clauses |-> << FactE("always", <<Num(2)>>) >>],
                    d9 |-> [valid |-> TRUE,  clauses |-> << Rule(A("u", <<X>>), <<<<"pos", A("base", <<Var("Y")>>)>>,
                                                                               <<"eq", X, Ap("fn:div", <<Num(6), Ap("fn:minus", <<Var("Y"), Num(1)>>)>>)>>>>) >>] ] ]
-TI == {"d1", "d2", "d3", "d4", "d5", "d6", "d7", "d8", "d9"}
-FS == {{"f1"}, {"f2"}, {"f3"}, {"f1", "f3"}}
+TI == {"d1", "d2", "d3", "d4", "d5", "d6", "d7", "d8", "d9", "d10", "d11"}
+FS == {{"f1"}, {"f2"}, {"f3"}, {"f1", "f3"}, {"f4"}}
 =============================================================================
